@@ -4,7 +4,8 @@
 (*   interface-list configurations (distinct, repeated object, equal-valued *)
 (*   objects, equal coordinates with other ids, ids unrelated to position)  *)
 (*   x placement (rescale / offset, integer and half-integer)              *)
-(*   x layers x integrate x image mode; every leaf carries the image        *)
+(*   x layers x integrate x image mode (quick tier: modes alternate); every *)
+(*   leaf carries the image                                                 *)
 (*   patterns PATS (value patterns on the leaf's image size).               *)
 (* Model-level invariants: the spec's own operators are coherent (values    *)
 (* normalised by their mean average to one, medians scale with the image,   *)
@@ -15,7 +16,7 @@
 (***************************************************************************)
 EXTENDS Myosin, Json
 
-CONSTANTS CONFS, TRS, LAYS, PATS
+CONSTANTS CONFS, TRS, LAYS, PATS, BOTHMODES
 VARIABLES conf, tr, lay, integ, mode, E
 vars == <<conf, tr, lay, integ, mode, E>>
 
@@ -88,7 +89,11 @@ ChooseConf == conf = 0 /\ conf' \in CONFS /\ UNCHANGED <<tr, lay, integ, mode, E
 ChooseTr   == conf # 0 /\ tr = 0 /\ tr' \in TRS /\ UNCHANGED <<conf, lay, integ, mode, E>>
 ChooseLay  == tr # 0 /\ lay = -1 /\ lay' \in LAYS /\ UNCHANGED <<conf, tr, integ, mode, E>>
 ChooseInt  == lay # -1 /\ integ = "?" /\ integ' \in {"plain", "integrate"} /\ UNCHANGED <<conf, tr, lay, mode, E>>
-ChooseMode == integ # "?" /\ mode = "?" /\ mode' \in {"F", "L"} /\ UNCHANGED <<conf, tr, lay, integ, E>>
+\* quick tier: one image mode per leaf, alternating; thorough tier: both
+ChooseMode == /\ integ # "?" /\ mode = "?"
+              /\ mode' \in (IF BOTHMODES THEN {"F", "L"}
+                            ELSE {IF (conf + tr + lay + (IF integ = "plain" THEN 0 ELSE 1)) % 2 = 0 THEN "F" ELSE "L"})
+              /\ UNCHANGED <<conf, tr, lay, integ, E>>
 Build      == mode # "?" /\ E = NoEnv /\ E' = MkEnv(conf, tr, lay, integ = "integrate", mode)
               /\ UNCHANGED <<conf, tr, lay, integ, mode>>
 Next == ChooseConf \/ ChooseTr \/ ChooseLay \/ ChooseInt \/ ChooseMode \/ Build
